@@ -245,41 +245,140 @@ Qed.
 (* ---- the index key of a canonical path is an ancestor of every path it is a (brace-cut) prefix of *)
 
 Lemma index_key_of_nonempty c : index_key_of c <> [].
-Proof. unfold index_key_of. destruct (rstrip ik_sep _); congruence. Qed.
+Proof. unfold index_key_of. destruct (path_safe_dec _); congruence. Qed.
 
-Lemma key_is_ancestor_of_prefix s p rest :
-  p <> [] -> p = s ++ rest ->
-  (rest = [] \/ True) ->
-  In (match rstrip SLASH (rpart SLASH s) with [] => [SLASH] | k => k end) (ancestors p).
+(* ---- path_safe_dec works segment by segment *)
+
+Lemma split_on_aux_nonempty c s : forall cur, split_on_aux c cur s <> [].
+Proof. induction s as [|x s IH]; intros cur; simpl; [congruence|]. destruct (x =? c); [congruence|apply IH]. Qed.
+
+Lemma split_on_aux_app c a b : forall cur,
+  split_on_aux c cur (a ++ c :: b) = split_on_aux c cur a ++ split_on c b.
 Proof.
-  intros Hp Hs _. rewrite In_ancestors by assumption. unfold anc_rel.
-  destruct (rstrip SLASH (rpart SLASH s)) as [|y k] eqn:R; [auto|].
+  induction a as [|x a IH]; intros cur; cbn [app split_on_aux].
+  - rewrite N.eqb_refl. reflexivity.
+  - destruct (x =? c); [rewrite IH; reflexivity|apply IH].
+Qed.
+
+Lemma split_on_app c a b : split_on c (a ++ c :: b) = split_on c a ++ split_on c b.
+Proof. apply split_on_aux_app. Qed.
+
+Lemma split_on_aux_cur c s : forall cur,
+  split_on_aux c cur s =
+  match split_on_aux c [] s with h :: t => (rev cur ++ h) :: t | [] => [] end.
+Proof.
+  induction s as [|x s IH]; intros cur; cbn [split_on_aux].
+  - cbn [rev]. rewrite app_nil_r. reflexivity.
+  - destruct (x =? c).
+    + cbn [rev]. rewrite app_nil_r. reflexivity.
+    + rewrite (IH (x :: cur)), (IH [x]).
+      destruct (split_on_aux c [] s) as [|h t]; [reflexivity|]. cbn [rev]. rewrite <- !app_assoc. reflexivity.
+Qed.
+
+Lemma split_on_cons c x s : (x =? c) = false ->
+  split_on c (x :: s) = match split_on c s with h :: t => (x :: h) :: t | [] => [] end.
+Proof.
+  intros E. unfold split_on. cbn [split_on_aux]. rewrite E, split_on_aux_cur. reflexivity.
+Qed.
+
+Lemma join_with_app sep (l1 l2 : list str) : l1 <> [] -> l2 <> [] ->
+  join_with sep (l1 ++ l2) = join_with sep l1 ++ sep ++ join_with sep l2.
+Proof.
+  induction l1 as [|a l1 IH]; intros H1 H2; [congruence|].
+  destruct l1 as [|b l1].
+  - cbn [app join_with]. destruct l2; [congruence|reflexivity].
+  - change ((a :: b :: l1) ++ l2) with (a :: (b :: l1) ++ l2).
+    change (join_with sep (a :: (b :: l1) ++ l2)) with (a ++ sep ++ join_with sep ((b :: l1) ++ l2)).
+    rewrite IH by congruence.
+    change (join_with sep (a :: b :: l1)) with (a ++ sep ++ join_with sep (b :: l1)).
+    rewrite <- !app_assoc. reflexivity.
+Qed.
+
+(* D1: a '/' never takes part in an escape *)
+Lemma dec_slash a b : path_safe_dec (a ++ SLASH :: b) = path_safe_dec a ++ SLASH :: path_safe_dec b.
+Proof.
+  unfold path_safe_dec. rewrite split_on_app, map_app.
+  rewrite join_with_app.
+  - reflexivity.
+  - intros H. apply map_eq_nil in H. exact (split_on_aux_nonempty _ _ _ H).
+  - intros H. apply map_eq_nil in H. exact (split_on_aux_nonempty _ _ _ H).
+Qed.
+
+Lemma dec_nil : path_safe_dec [] = [].
+Proof. reflexivity. Qed.
+
+Lemma decode_head_not_pct x s : (x =? PCT) = false -> decode_head (x :: s) = None.
+Proof.
+  intros E. unfold decode_head, pct_head. destruct s as [|h [|l r]]; try reflexivity. rewrite E. reflexivity.
+Qed.
+
+Lemma dec_cons x s : (x =? SLASH) = false -> (x =? PCT) = false ->
+  path_safe_dec (x :: s) = x :: path_safe_dec s.
+Proof.
+  intros E1 E2. unfold path_safe_dec. rewrite (split_on_cons SLASH x s E1).
+  pose proof (split_on_aux_nonempty SLASH s []) as Hne. fold (split_on SLASH s) in Hne.
+  destruct (split_on SLASH s) as [|h t]; [congruence|].
+  cbn [map]. assert (Hh : dec_aux 0 (x :: h) = x :: dec_aux 0 h).
+  { cbn [dec_aux]. rewrite (decode_head_not_pct x h E2). reflexivity. }
+  rewrite Hh. destruct t; reflexivity.
+Qed.
+
+(* D2: text without '%' is copied *)
+Lemma dec_plain_app a b : memN PCT a = false -> path_safe_dec (a ++ b) = a ++ path_safe_dec b.
+Proof.
+  induction a as [|x a IH]; intros H; [reflexivity|].
+  cbn [memN] in H. apply orb_false_iff in H as [Hx Ha]. rewrite N.eqb_sym in Hx.
+  destruct (x =? SLASH) eqn:Es.
+  - apply N.eqb_eq in Es. subst x. change ((SLASH :: a) ++ b) with ([] ++ SLASH :: (a ++ b)).
+    rewrite dec_slash, dec_nil, IH by assumption. reflexivity.
+  - cbn [app]. rewrite dec_cons by assumption. rewrite IH by assumption. reflexivity.
+Qed.
+
+Lemma dec_plain a : memN PCT a = false -> path_safe_dec a = a.
+Proof. intros H. rewrite <- (app_nil_r a) at 1. rewrite dec_plain_app, dec_nil, app_nil_r by assumption. reflexivity. Qed.
+
+Lemma dec_slashes n : path_safe_dec (repeat SLASH n) = repeat SLASH n.
+Proof.
+  induction n as [|n IH]; [reflexivity|]. cbn [repeat].
+  change (SLASH :: repeat SLASH n) with ([] ++ SLASH :: repeat SLASH n). rewrite dec_slash, dec_nil, IH. reflexivity.
+Qed.
+
+Lemma dec_app_slashes a n : path_safe_dec (a ++ repeat SLASH n) = path_safe_dec a ++ repeat SLASH n.
+Proof.
+  destruct n as [|n]; [cbn [repeat]; rewrite !app_nil_r; reflexivity|].
+  cbn [repeat]. rewrite dec_slash, dec_slashes. reflexivity.
+Qed.
+
+(* ---- the index key of a canonical path is an ancestor of every path that starts with the decoded
+   form of a text L of which the brace-cut canonical is a prefix *)
+
+Lemma key_anc_brace c L rest p :
+  p <> [] -> memN ik_brace c = true ->
+  (exists u, L = before_char ik_brace c ++ u) ->
+  p = path_safe_dec L ++ rest ->
+  In (index_key_of c) (ancestors p).
+Proof.
+  intros Hp Hb [u HL] Hpe. rewrite In_ancestors by assumption. unfold index_key_of, anc_rel. rewrite Hb.
+  set (b := before_char ik_brace c) in *.
+  destruct (path_safe_dec (rstrip ik_sep (rpart ik_sep b))) as [|y k] eqn:R; [auto|].
   right. left. split; [congruence|].
-  assert (Hq : rpart SLASH s <> []) by (intros H; rewrite H in R; discriminate).
-  destruct (rpart_split SLASH s Hq) as (tail & H1 & _).
-  destruct (rstrip_then_slash SLASH (rpart SLASH s) tail) as [r Hr]; [rewrite R; congruence|].
-  rewrite R in Hr. exists (r ++ rest). rewrite Hs, H1, Hr, <- app_assoc. reflexivity.
+  assert (Hq : rpart ik_sep b <> []).
+  { intros H. rewrite H in R. discriminate. }
+  destruct (rpart_split ik_sep b Hq) as (tail & H1 & _).
+  destruct (rstrip_split ik_sep (rpart ik_sep b)) as [n Hn].
+  set (k0 := rstrip ik_sep (rpart ik_sep b)) in *.
+  assert (HLk : exists X, L = k0 ++ SLASH :: X).
+  { rewrite HL, H1, Hn, <- !app_assoc. destruct n; cbn [repeat app]; eauto. }
+  destruct HLk as [X HX]. rewrite Hpe, HX, dec_slash, R. rewrite <- app_assoc. cbn [app]. eauto.
 Qed.
 
-Lemma key_is_ancestor_whole p :
-  p <> [] -> In (match rstrip SLASH p with [] => [SLASH] | k => k end) (ancestors p).
+Lemma key_anc_whole c p : p <> [] -> memN ik_brace c = false -> p = path_safe_dec c ->
+  In (index_key_of c) (ancestors p).
 Proof.
-  intros Hp. rewrite In_ancestors by assumption. unfold anc_rel.
-  destruct (rstrip SLASH p) as [|y k] eqn:R; [auto|].
-  destruct (rstrip_split SLASH p) as [n H]. rewrite R in H.
-  destruct n; simpl in H.
-  - rewrite app_nil_r in H. auto.
+  intros Hp Hb Hpe. rewrite In_ancestors by assumption. unfold index_key_of, anc_rel. rewrite Hb.
+  destruct (rstrip_split ik_sep c) as [n Hn].
+  destruct (path_safe_dec (rstrip ik_sep c)) as [|y k] eqn:R; [auto|].
+  rewrite Hn, dec_app_slashes, R in Hpe. destruct n; cbn [repeat] in Hpe.
+  - rewrite app_nil_r in Hpe. auto.
   - right. left. split; [congruence|]. eauto.
-Qed.
-
-(* c relates to p as a canonical path relates to a path it matches *)
-Definition canon_prefix (c p : str) : Prop :=
-  if memN ik_brace c then exists rest, p = before_char ik_brace c ++ rest else p = c.
-
-Lemma key_anc c p : p <> [] -> canon_prefix c p -> In (index_key_of c) (ancestors p).
-Proof.
-  unfold canon_prefix, index_key_of. intros Hp H.
-  destruct (memN ik_brace c).
-  - destruct H as [rest H]. apply (key_is_ancestor_of_prefix _ p rest Hp H). auto.
-  - subst. apply key_is_ancestor_whole. assumption.
 Qed.
